@@ -519,8 +519,10 @@ class Model(AbstractPriorModel):
         new_model: ModelMapper
             A new model mapper populated with Gaussian priors
         """
-        self.unfreeze()
+        # work on an unfrozen copy: thawing `self` here would silently unfreeze a component of a
+        # frozen parent (the parent keeps its caches and its frozen flag)
         new_model = copy.deepcopy(self)
+        new_model.unfreeze()
 
         new_model._assertions = list()
 
